@@ -15,7 +15,8 @@ Is(name) == l <= Len(Evs) /\ E.ev = name
 Adv == l' = l + 1 /\ tid' = tid
 Same == UNCHANGED vars
 
-ParamOf(h) == [ fail |-> [s \in Stages |-> ToSet(h.fail[s])], route |-> h.route, abandon |-> ToSet(h.abandon) ]
+ParamOf(h) == [ fail |-> [s \in Stages |-> ToSet(h.fail[s])], pre |-> [s \in Stages |-> ToSet(h.pre[s])],
+                route |-> h.route, abandon |-> ToSet(h.abandon) ]
 
 TraceInit ==
   \E t \in 1..Len(TraceLog) :
@@ -58,7 +59,9 @@ TRet    == /\ Is("Ret") /\ Return(E.r) /\ E.tb      \* tb: a failure carries its
            /\ outcome[E.r].k = E.k
            /\ \/ E.k = "v" /\ outcome[E.r].req = E.req /\ outcome[E.r].path = E.path
               \/ E.k = "e" /\ outcome[E.r].path = E.path
-                 /\ (W(CHOOSE i \in WIds : W(i).stage = E.path[1]).b = 1 => outcome[E.r].req = E.req)
+                 /\ IF E.path[1] \in {"PS1", "PS2", "PA", "PB"}
+                      THEN outcome[E.r].req = E.req            \* preprocess is per element: always the request's own failure
+                      ELSE (W(CHOOSE i \in WIds : W(i).stage = E.path[1]).b = 1 => outcome[E.r].req = E.req)
               \/ E.k \in {"l", "x"} /\ outcome[E.r].a = E.a /\ outcome[E.r].b = E.b
            /\ Adv
 TAbandon == Is("Abandon") /\ Abandon(E.r) /\ Adv
